@@ -73,7 +73,7 @@ def main(tier):
             cases.append({"id": cid, "files": {"main.asm": src, "inc.asm": INC}, "pc": 0x2000, "want": ["segments", "symbols"], "max_passes": 40})
             canon_id[form] = cid
             meta[cid] = src
-        src = PRELUDE + render(v["toks"]) + "\n"
+        src = PRELUDE + render(v["toks"]) + (v["v"]["fill"] if v["v"]["kind"] == "tail" else "\n")
         if v["v"]["kind"] == "crlf":
             import re
             src = re.sub(r"(?<!\r)\n", "\r\n", src)
@@ -95,7 +95,7 @@ def main(tier):
     rep.cov["evaluations"] = len(cases)
     rep.cov["distinct_nontrivial"] = len({meta[i] for i in range(1, len(variants) + 1)} - {meta[c] for c in canon_id.values()})
     rep.cov["rule"] = ("%d statement forms; every gap x every filler its kind allows (ws: blanks, tabs, block comments incl. nested and code-like; mws: also LF, CRLF, blank lines, line comments), "
-                       "gap pairs for the structured forms, every case-variable terminal x upper/mixed case, whole-statement CRLF / comment-after-every-token / all-upper / tabs; "
+                       "gap pairs for the structured forms, every case-variable terminal x upper/mixed case, whole-statement CRLF / comment-after-every-token / all-upper / tabs, and every form x every filler of the gap between its last terminal and the end of the file (nothing, blanks, comments without a line end ...); "
                        "distinct = distinct variant texts different from the canonical text" % len(canon_id))
     rep.cov["exhaustive"] = True
     for i in (1, len(variants) // 2, len(variants)):
